@@ -203,7 +203,9 @@ def r5(R):
         R.shape(isinstance(mask, ast.Name), "C02.R5", GVG, "g_to_k", "a named mask in np.where")
         mdef = [a for a in ast.walk(fn) if isinstance(a, ast.Assign) and any(src(t) == mask.id for t in a.targets) and a.lineno <= gate[0].lineno]
         R.shape(len(mdef) == 1, "C02.R5", GVG, "g_to_k", "the single definition of the mask %s" % mask.id)
-        comps = [x for x in ast.walk(mdef[0].value) if isinstance(x, ast.Compare)]
+        # read through local names (in_range = (quot >= -1) & (quot <= 1); valid = ~msk & in_range), keeping the gated quantity's own name
+        comps = [x for x in ast.walk(pyfacts.resolved(fn, mdef[0].value, 3, keep=(arg.id, src(gate[0].value.args[1]) if len(gate[0].value.args) >= 2 else arg.id)))
+                 if isinstance(x, ast.Compare)]
         lower = upper = False
         gated = src(gate[0].value.args[1]) if len(gate[0].value.args) >= 2 else arg.id     # the quantity np.where lets through
         names_ok = (arg.id, gated)
